@@ -174,12 +174,46 @@ def child_main(proc, sockpath, cache_dir, forms, max_polls, opt_flags):
 
     real_open = builtins.open
 
+    class FailingWriter:
+        """A file whose write raises ENOSPC (fault "marker": the ready marker's content cannot be written)."""
+
+        def __init__(self, f):
+            self._f = f
+
+        def write(self, data):
+            import errno
+            raise OSError(errno.ENOSPC, "injected: no space left on device")
+
+        def __getattr__(self, name):
+            return getattr(self._f, name)
+
+        def __enter__(self):
+            return self
+
+        def __exit__(self, *exc):
+            self._f.close()
+            return False
+
+    def marker_payload(file, mode):
+        """Is this the file the ready marker's content goes to (the marker itself or a temporary next to it)?"""
+        if isinstance(file, int) or not any(ch in mode for ch in "wxa+"):
+            return False
+        try:
+            p = os.fspath(file)
+        except TypeError:
+            return False
+        p = p.decode() if isinstance(p, bytes) else p
+        return os.path.realpath(p).startswith(cache_prefix) and ".c.cached" in os.path.basename(p) and not depth[0]
+
     def open_proxy(file, mode="r", *a, **kw):
         k = watched(file) if not isinstance(file, int) else None
+        inject = st["fault"] == "marker" and marker_payload(file, mode)
         if k is None:
-            return real_open(file, mode, *a, **kw)
+            f = real_open(file, mode, *a, **kw)
+            return FailingWriter(f) if inject else f
         m = "x" if "x" in mode else "w" if any(ch in mode for ch in "wa+") else "r"
-        return hooked("open", k, file, lambda: real_open(file, mode, *a, **kw), {"mode": m})
+        f = hooked("open", k, file, lambda: real_open(file, mode, *a, **kw), {"mode": m})
+        return FailingWriter(f) if inject else f
 
     real_os_open = os.open
 
@@ -512,6 +546,10 @@ class Sched:
             return "bload" if self.isbuilder[p] else "wload"
         if e == "exists" and m["file"] != "cached":
             return "exists:" + m["file"]
+        if e == "exists" and self.isbuilder[p]:
+            return "mark"                       # the builder looks whether a marker exists already
+        if e in ("replace", "rename") and m.get("dst") == "cached":
+            return "publish"                    # the finished marker is renamed into place
         if e == "end":
             if m["outcome"] == "returned":
                 return "ret"
@@ -582,6 +620,8 @@ class Sched:
         c, m = self.parked[p]
         ev, k = m["ev"], self.reqkey[p]
         args = {a: m[a] for a in ("file", "mode", "dst", "sha", "outcome", "exc", "result_ok") if a in m}
+        if ev == "exists":
+            args["role"] = "builder" if self.isbuilder[p] else "waiter"
         if "path" in m and m.get("file") == "c" and k not in self.base:
             self.base[k] = m["path"][:-2]
         if ev == "load":
@@ -602,7 +642,8 @@ class Sched:
         if ev == "linkend" and res == "ok":
             sos = list(Path(self.base[k]).parent.glob(Path(self.base[k]).name + ".*.so"))
             self.complete_sha[k] = hashlib.sha1(sos[0].read_bytes()).hexdigest()
-        if ev == "open" and m["file"] == "cached" and res == "ok":
+        if ((ev == "open" and m["file"] == "cached" and m["mode"] in ("x", "w"))
+                or (ev in ("replace", "rename") and m.get("dst") == "cached")) and res == "ok":
             self.markgen[k] = self.gen[k]
         if ev == "sleep":
             self.polls[p] += 1
@@ -634,6 +675,10 @@ def action_of(line):
         return {"c": "TryLock", "cached": "WriteMarker"}.get(a["file"])
     if e == "load":
         return "LoadBuilder" if a["role"] == "builder" else "LoadWaiter"
+    if e in ("replace", "rename") and a.get("dst") == "cached":
+        return "WriteMarker"
+    if e == "exists" and a.get("file") == "cached" and a.get("role") == "builder":
+        return "CheckMarker"
     return EV2ACTION.get(e)
 
 
@@ -742,7 +787,7 @@ def run_random(forms, job):
             if what == "req":
                 f = "none"
                 if fails < job["max_fails"] and rnd.random() < job.get("p_fail", 0.3):
-                    f = rnd.choice(["codegen", "cc", "link"])
+                    f = rnd.choice(["codegen", "cc", "link", "marker"])
                     fails += 1
                 reqs += 1
                 s.request(p, rnd.choice(keys), f)
